@@ -195,19 +195,26 @@ pub fn run_campaign(target: &str, runs: u64, seed: u64, max_len: usize, max_secs
             .args(["-len_control=0", "-timeout=120", "-rss_limit_mb=6000", "-print_final_stats=1"])
             .arg(format!("-artifact_prefix={}/j{}-", arts.display(), j))
             .stdout(std::process::Stdio::null())
-            .stderr(std::process::Stdio::piped())
+            .stderr(match std::fs::File::create(arts.join(format!("j{}.log", j))) {
+                Ok(f) => std::process::Stdio::from(f),
+                Err(_) => std::process::Stdio::null(),
+            })
             .spawn();
         match child {
-            Ok(c) => children.push((work, c)),
+            Ok(c) => children.push((work, c, arts.join(format!("j{}.log", j)))),
             Err(e) => out.note = format!("could not start {}: {}", bin.display(), e),
         }
     }
     let mut all_ok = !children.is_empty();
     let mut notes = vec![];
-    for (work, c) in children {
-        match c.wait_with_output() {
-            Ok(o) => {
-                let stderr = String::from_utf8_lossy(&o.stderr);
+    for (work, mut c, logf) in children {
+        match c.wait() {
+            Ok(status) => {
+                let stderr = std::fs::read_to_string(&logf).unwrap_or_default();
+                struct O {
+                    status: std::process::ExitStatus,
+                }
+                let o = O { status };
                 for line in stderr.lines() {
                     if let Some(v) = line.strip_prefix("stat::number_of_executed_units:") {
                         out.execs += v.trim().parse::<u64>().unwrap_or(0);
